@@ -380,6 +380,8 @@ func (i *Interface) PutMany(dbName string) (put func(record.Record) error) {
 	dbBatch, errs := db.PutMany()
 	finished := abool.New()
 	var internalErr error
+	var batchErr error
+	aborted := make(chan struct{}) // closed when the database side has ended the batch
 
 	// interface options proxy
 	go func() {
@@ -394,7 +396,11 @@ func (i *Interface) PutMany(dbName string) (put func(record.Record) error) {
 				// apply options
 				i.options.Apply(r)
 				// pass along
-				dbBatch <- r
+				select {
+				case dbBatch <- r:
+				case <-aborted:
+					return
+				}
 			case <-time.After(1 * time.Second):
 				// bail out
 				internalErr = errors.New("timeout: putmany unused for too long")
@@ -411,6 +417,10 @@ func (i *Interface) PutMany(dbName string) (put func(record.Record) error) {
 			if internalErr != nil {
 				return internalErr
 			}
+			// check for a failed batch
+			if batchErr != nil {
+				return batchErr
+			}
 			// check for previous error
 			select {
 			case err := <-errs:
@@ -425,7 +435,9 @@ func (i *Interface) PutMany(dbName string) (put func(record.Record) error) {
 			finished.Set()
 			interfaceBatch <- nil // signify that we are finished
 			// do not close, as this fn could be called again with nil.
-			return <-errs
+			err := <-errs
+			close(aborted)
+			return err
 		}
 
 		// check record scope
@@ -438,6 +450,10 @@ func (i *Interface) PutMany(dbName string) (put func(record.Record) error) {
 		case interfaceBatch <- r:
 			return nil
 		case err := <-errs:
+			// The database side has ended the batch and reports only once.
+			batchErr = err
+			finished.Set()
+			close(aborted)
 			return err
 		}
 	}
